@@ -88,6 +88,7 @@ class Engine:
         self.logconsts = {}
         self.model = None      # a model of the current path condition, if known
         self.hints = []
+        self.fn_cache = {}
         self.power_hook = None
         self.log10_hook = None
         self.log_tol = Fraction(1, 10 ** 12)
@@ -353,13 +354,21 @@ class Engine:
         small = [z3.And(t <= 64, t >= -64) for t in terms]
         try:
             self.solver.set("timeout", min(1000, old))
-            for cons in ((list(self.hints) + small) if self.hints else None, small):
-                if cons is None:
-                    continue
-                if self._check(*extra, *cons) == "sat":
-                    m = self.solver.model()
-                    if not prefer_dyadic or exact(m):
-                        return m
+            if self.hints:
+                hs = list(self.hints) + small
+                if self._check(*extra, *hs) == "sat":
+                    hinted = self.solver.model()
+                    if not prefer_dyadic or exact(hinted):
+                        return hinted
+                    for k in (0, 3, 10):
+                        cons = [z3.IsInt(t * (2 ** k)) for t in terms if t.sort() == z3.RealSort()]
+                        if self._check(*extra, *hs, *cons) == "sat":
+                            return self.solver.model()
+                    return hinted          # consistent with the hints, although not float-exact
+            if self._check(*extra, *small) == "sat":
+                m = self.solver.model()
+                if not prefer_dyadic or exact(m):
+                    return m
             self.solver.set("timeout", old)
             if self._check(*extra) == "sat":
                 plain = self.solver.model()
@@ -504,6 +513,7 @@ class Engine:
             self.ufs = {}
             self.logconsts = {}
             self.hints = []
+            self.fn_cache = {}
             if self.trail:
                 self.model = None
             try:
